@@ -535,6 +535,12 @@ class Check(PropertyCheck):
                         fails.append(f"upstream HTTP/1 bytes parse as {len(p.messages)} requests: {data[:120]!r}")
                     elif p.stop is not None and p.stop[0] != "incomplete":
                         fails.append(f"upstream HTTP/1 bytes are not one well-framed request ({p.stop}): {data[:120]!r}")
+                    elif p.stop is not None and p.messages:
+                        # a complete message followed by bytes that are not (yet) one: the body was framed shorter than sent
+                        fails.append(f"upstream HTTP/1 bytes continue after the end of the request ({len(data) - p.rest} bytes): {data[:120]!r}")
+                    elif p.stop is not None and "request" in obs["hooks"] and "error" not in obs["hooks"]:
+                        # the exchange went through without an error, so the request must have been written completely
+                        fails.append(f"upstream HTTP/1 request is incomplete ({p.stop}) although the exchange completed: {data[:120]!r}")
                     elif p.stop is not None and not (up["closed"] or up["half_closed"]):
                         if not (p.stop == ("incomplete", "body") and not obs["responded"]):
                             fails.append(f"upstream HTTP/1 request left incomplete on an open connection ({p.stop}): {data[:120]!r}")
@@ -598,6 +604,8 @@ class Check(PropertyCheck):
                         fails.append(f"client HTTP/1 bytes parse as more than one response: {data[:160]!r}")
                     elif p.stop is not None and p.stop[0] in ("malformed", "ambiguous"):
                         fails.append(f"client HTTP/1 bytes are not one well-framed response ({p.stop}): {data[:160]!r}")
+                    elif p.stop is not None and p.stop[0] == "incomplete" and finals and p.stop[1] == "head":
+                        fails.append(f"client HTTP/1 bytes continue after the end of the response: {data[:160]!r}")
                     elif p.stop is not None and p.stop[0] == "incomplete" and not down["closed"]:
                         fails.append(f"client HTTP/1 response left incomplete on an open connection ({p.stop}): {data[:160]!r}")
                     elif finals and p.stop is None:
